@@ -94,7 +94,7 @@ SITE_TAGS = ["init-extensions-nondict", "init-extension-entry-nondict", "init-to
              "init-custom-properties-falsy-nondict", "constraints-custom-granular-markings", "v20-marking-created-precision",
              "dict-to-stix2-extensions-nondict", "dict-to-stix2-extension-entry-nondict", "detect-bundle-without-objects",
              "detect-nested-object-without-type", "tlp-without-definition", "indicator20-empty-pattern-validator-crash",
-             "indicator21-empty-pattern-validator-crash", "json-text-nesting-depth"]
+             "indicator21-empty-pattern-validator-crash", "json-text-nesting-depth", "generate-id-huge-integer-overflowerror"]
 
 
 # ----------------------------------------------------------------------------
@@ -137,6 +137,8 @@ def witnesses():
             "type": "indicator", "spec_version": "2.1", "id": "indicator--" + UUID4, "created": TS, "modified": TS,
             "pattern": "", "pattern_type": "stix", "valid_from": TS}},
         "json-text-nesting-depth": {"op": "deep", "deep": {"shape": "list", "depth": 100000, "text": True}},
+        "generate-id-huge-integer-overflowerror": {"op": "parse", "data": {
+            "type": "autonomous-system", "spec_version": "2.1", "number": 10 ** 400}},
     }
 
 
@@ -915,6 +917,7 @@ SITE_FNS = {
     "indicator20-empty-pattern-validator-crash": {"v20.sdo.Indicator._check_object_constraints"},
     "indicator21-empty-pattern-validator-crash": {"v21.sdo.Indicator._check_object_constraints"},
     "json-text-nesting-depth": {"utils._get_dict"},
+    "generate-id-huge-integer-overflowerror": {"canonicalization.NumberToJson.convert2Es6Format"},
 }
 
 MODE = {"refuse_custom": False, "strict_unregistered_extension": False}
